@@ -193,6 +193,11 @@ class Evaluator:
         except Exception as e:
             raise NotLiteral(f"subscript: {e}")
 
+    def _Slice(self, n):
+        return slice(self.ev(n.lower) if n.lower is not None else None,
+                     self.ev(n.upper) if n.upper is not None else None,
+                     self.ev(n.step) if n.step is not None else None)
+
     def _IfExp(self, n):
         return self.ev(n.body) if self.ev(n.test) else self.ev(n.orelse)
 
